@@ -182,6 +182,19 @@ class HbScenario(cmdscn.CmdScenario):
                     v.append('action expired at t=%d although its last '
                              'heartbeat / grace deadline t=%d is not older '
                              'than %ds' % (now, lh, THRESH))
+        if choice.kind in ('msg', 'act') and \
+                'report_running_actions' in (choice.info or '') and \
+                not ctx.new_exceptions and getattr(choice.obj, 'done', True):
+            # a delivered heartbeat is recorded: it is the moment the
+            # silence of this action is measured from (also when it arrives
+            # before the first-heartbeat grace period is over)
+            for a in post['action_executions_v2']:
+                p = pre_a.get(a['id'])
+                if p and p['state'] == 'RUNNING' and a['state'] == 'RUNNING' \
+                        and hb.get(a['id'], (None,))[0] != now:
+                    v.append('heartbeat for running action %s processed at '
+                             't=%d but its recorded last heartbeat is t=%s'
+                             % (a['name'], now, hb.get(a['id'], (None,))[0]))
         is_checker = choice.kind == 'act' and getattr(
             choice.obj, 'owner', None) == 'checker'
         if is_checker and not ctx.new_exceptions and \
@@ -400,6 +413,20 @@ def scenarios(tier):
                          passes=[T0 + 1, FIRST + THRESH + 1,
                                  FIRST + THRESH + 3], results=res)
         jobs.append((scn, 1 if quick else 3, 40 if quick else 900, 1))
+        if pname == 'single' or not quick:
+            # the heartbeat arrives inside / at / after the grace period;
+            # the executor dies afterwards: expiry is measured from the
+            # heartbeat
+            for hb_t in range(1, FIRST + 2):
+                if hb_t == FIRST:
+                    continue
+                scn = HbScenario(
+                    'hb/%s/heartbeat@%d-then-silent' % (pname, hb_t), prog,
+                    silent=sync_keys[:1], heartbeat_at=[hb_t],
+                    passes=[hb_t + THRESH, hb_t + THRESH + 1,
+                            FIRST + THRESH + 1], results=res)
+                jobs.append((scn, 1 if quick else 3, 40 if quick else 900,
+                             1))
     # actions the checker cannot fail (ad-hoc runs without a task) fill its
     # batch: the lost action of the workflow must still be failed
     prog = programs()['single']
